@@ -212,7 +212,7 @@ for _lim in (1, 2):
             AccessOuts=TSet(["ok", "ok", "deny", "timeout"]), GetOuts=TSet(["ok", "ok", "notFound", "timeout", "err"]),
             CallOuts=TSet(["ok"]), QueryOuts=TSet(["full"]),
             Tokens=TSet(['"t1"', '"t2"']), Patterns=TSet([[], [">"], ["a", "b"], ["*"], ["e"], ["a", ">"]]),
-            Features=TSet(["unsub", "events", "custom", "reset", "mutate", "token", "reaccess", "close", "quiesce"]),
+            Features=TSet(["unsub", "events", "custom", "reset", "mutate", "token", "tokenreset", "reaccess", "close", "quiesce"]),
             Weights=["int", "int", "int", "int", "reply", "reply", "reply", "reply", "cli", "trig", "trig", "svc", "misc"],
             MaxSteps=50),
         depth=51)
